@@ -12,6 +12,7 @@
 (*   parse    yaserde::de::from_str               -> Yaserde error          *)
 (*   ret      Ok(response envelope)                                         *)
 (* Server script: "refuse" | "close_before" | "close_after" | "truncate" |  *)
+(*   "overlong" (complete envelope, Content-Length larger, then close) |    *)
 (*   [status, body] with body in {"exact", "other_prefixes", "empty",       *)
 (*   "non_xml", "fault"}.                                                   *)
 (* Deviations: none known; `Dev` can switch on "no_status_check" (a 4xx/5xx *)
@@ -47,7 +48,7 @@ Status == /\ pc = "status"
              IF st >= 400 /\ "no_status_check" \notin Dev THEN pc' = "ret" /\ result' = "err_http" ELSE pc' = "body" /\ UNCHANGED result
           /\ UNCHANGED <<violates, creds, script, conns, requests>>
 Body == /\ pc = "body"
-        /\ IF script.k \in {"close_after", "truncate"} THEN pc' = "ret" /\ result' = "err_http" ELSE pc' = "parse" /\ UNCHANGED result
+        /\ IF script.k \in {"close_after", "truncate", "overlong"} THEN pc' = "ret" /\ result' = "err_http" ELSE pc' = "parse" /\ UNCHANGED result
         /\ UNCHANGED <<violates, creds, script, conns, requests>>
 Parse == /\ pc = "parse"
          /\ pc' = "ret"
